@@ -402,7 +402,7 @@ SUBS = {"roundtrip": Sub(rt_pred, strategy=rt_cases), "latest": Sub(latest_pred,
 
 
 def jobs(tier):
-    n1, n2, n3, n4 = (12, 30, 60, 4) if tier == "quick" else (400, 800, 3000, 24)
+    n1, n2, n3, n4 = (12, 30, 60, 4) if tier == "quick" else (1500, 3000, 10000, 60)
     return ([{"sub": "roundtrip", "n": n1, "shard": i} for i in range(4)] +
             [{"sub": "latest", "n": n2, "shard": i} for i in range(2)] +
             [{"sub": "constants", "n": n3, "shard": i} for i in range(3)] +
